@@ -21,6 +21,7 @@ func genC13(g *gen, tier string) *Scenario {
 	sc.Cache = g.cache("loading")
 	sc.Cache.MaxSize = int64(pick(g, 2, 4, 8, 16))
 	sc.Cache.Pool = g.pct(30)
+	sc.Cache.CostFn = g.pct(30) // the loader may leave the cost to the cost function (1..3: oversize for MaxSize 2)
 	sc.Family = "loading"
 	if sc.Cache.Pool {
 		sc.Family = "loading+pool"
@@ -209,6 +210,17 @@ func checkC13(rd *RunData) []Violation {
 		case r.Ok:
 			if f := byVal[r.Val]; f != nil && f.l.Key != r.Op.Key {
 				vs = append(vs, Violation{"C13/foreign-result/value," + fam, fmt.Sprintf("%s by client %d returned value %d which loader invocation %s produced for key %d", r.Op, r.Client, r.Val, f.l.Token, f.l.Key)})
+			}
+			// (6a) a load heavier than the cache is refused like such a Set: only the callers of
+			// that flight see the value, nobody reads it from the cache afterwards
+			if f := byVal[r.Val]; f != nil && f.found && f.l.Outcome == "ok" && r.Inv > f.ret {
+				eff := f.l.Cost
+				if eff == 0 && rd.Sc.Cache.CostFn {
+					eff = costOf(f.l.Val)
+				}
+				if eff > rd.Sc.Cache.MaxSize {
+					vs = append(vs, Violation{"C13/oversize-admitted/loader,read-from-cache", fmt.Sprintf("%s by client %d (inv=%d) returned value %d which loader invocation %s had produced with cost %d > MaxSize %d; its flight had ended (seq %d), so the value was read from the cache", r.Op, r.Client, r.Inv, r.Val, f.l.Token, eff, rd.Sc.Cache.MaxSize, f.ret)})
+				}
 			}
 		}
 	}
